@@ -1,12 +1,17 @@
 (* C15: the calls that change the tree (push_child, push_children, remove, remove_child,
-   remove_children) preserve WF, outside the recorded call shapes 6, 7, 8. *)
+   remove_children) preserve WF. *)
 From Coq Require Import List Arith Bool Lia.
-From TT Require Import Base.HeapTypes Model.Heap Model.HeapTriggers Spec.ModelWF
-  Proofs.C15.HeapLemmas Proofs.C15.Links Proofs.C15.Tree Proofs.C15.Frames Proofs.C15.LinkOps Proofs.C15.Content.
+From TT Require Import Base.HeapTypes Model.Heap Model.HeapRep Spec.ModelWF
+  Proofs.C15.HeapLemmas Proofs.C15.Links Proofs.C15.Tree Proofs.C15.Frames Proofs.C15.LinkOps Proofs.C15.Content Proofs.C15.Users.
 Import ListNotations.
 
 Lemma map_kind_same h h' cs : same n_kind h h' -> map (fun c => n_kind (nd h' c)) cs = map (fun c => n_kind (nd h c)) cs.
 Proof. intro S. apply map_ext. intro; apply S. Qed.
+
+Lemma walk_None' h fuel : walk h fuel None = Some [].
+Proof. destruct fuel; reflexivity. Qed.
+Lemma kids_no_first' h s : n_first (nd h s) = None -> kids h s = Some [].
+Proof. intro E. unfold kids. rewrite E. apply walk_None'. Qed.
 
 Lemma Children_nil_first h s cs : Children h s cs -> (n_first (nd h s) = None <-> cs = []).
 Proof. intros (H1 & _). rewrite H1. destruct cs; simpl; split; intros; congruence. Qed.
@@ -34,9 +39,8 @@ Lemma push_guard_None h s c cs : Children h s cs -> push_guard h s c = None ->
 Proof.
   intros C G. unfold push_guard in G. destruct (kind_of h s) eqn:K; try discriminate G;
     try (left; cbn [simple_guard]; revert G; destruct (kind_in _ _); [reflexivity|discriminate]).
-  right. split; [reflexivity|]. unfold rtc_guard. cbv zeta. rewrite <- (okind_first _ _ _ C), <- (okind_last _ _ _ C).
-  revert G. destruct (okind_is KRt _); [destruct (kind_in _ _); [reflexivity|discriminate]|].
-  destruct (okind_is KRp _ && okind_is KRp _); [discriminate|]. destruct (kind_in _ _); [reflexivity|discriminate].
+  right. split; [reflexivity|]. unfold rtc_guard. rewrite <- (okind_first _ _ _ C).
+  revert G. destruct (okind_is KRp _ || negb _); [discriminate|reflexivity].
 Qed.
 
 Section OneStep.
@@ -49,9 +53,9 @@ Section OneStep.
   Lemma WF_ContentExcept : ContentExcept h s. Proof. intros p Hp _. apply WF_content_at. exact Hp. Qed.
   Lemma WF_kids : exists cs, Children h s cs. Proof. destruct WF_WFx as (_ & K & _). apply K. exact Hs. Qed.
 
-  Theorem push_child_WF c : c < nnodes h -> t_rtc_lone_rp h s c = false -> WF (heap_of (push_child h s c)).
+  Theorem push_child_WF c : c < nnodes h -> WF (heap_of (push_child h s c)).
   Proof.
-    intros Hc T. unfold push_child. destruct (push_guard h s c) eqn:G; [exact HW|].
+    intros Hc. unfold push_child. destruct (push_guard h s c) eqn:G; [exact HW|].
     destruct (ce_push_child h s c) as [h'|h' e] eqn:P; [|rewrite (ce_push_child_err _ _ _ _ _ P); exact HW].
     simpl. destruct WF_kids as [cs C].
     pose proof (push_WFx h h' s c cs WF_WFx Hs Hc C P) as WX.
@@ -63,9 +67,7 @@ Section OneStep.
       pose proof (WF_content_at s Hs cs C) as A.
       destruct (push_guard_None _ _ _ _ C G) as [SG|[KR RG]].
       + apply allowed_snoc_simple; assumption.
-      + unfold kind_of in KR. rewrite KR in *. simpl. simpl in A. apply rtc_push; [exact A|exact RG|].
-        intros [E1 E2]. unfold t_rtc_lone_rp in T. unfold kind_of in T, E2. rewrite KR, E2 in T. simpl in T.
-        apply map_eq_nil in E1. apply (Children_nil_first _ _ _ C) in E1. rewrite E1 in T. discriminate.
+      + unfold kind_of in KR. rewrite KR in *. simpl. simpl in A. apply rtc_push; [exact A|exact RG].
     - apply (push_ContentExcept h h' s c cs WF_WFx Hs Hc C P WF_ContentExcept p Hp Np).
   Qed.
 
@@ -146,6 +148,56 @@ Proof.
   - apply CE; assumption.
 Qed.
 
+(* ---- the representation invariant: the link operations touch neither regions nor users ---- *)
+Lemma ce_push_child_Rep h s c : Rep h -> Rep (heap_of (ce_push_child h s c)).
+Proof.
+  intro HR. destruct (ce_push_child h s c) as [h'|h' e] eqn:P; [|rewrite (ce_push_child_err _ _ _ _ _ P); exact HR].
+  simpl. destruct (push_size h h' s c P) as [HN _].
+  apply (rep_frame h); [exact HN| | | | |exact HR]; apply (push_same h h' s c P); reflexivity.
+Qed.
+Lemma ce_remove_child_Rep h s c : WFx h -> s < nnodes h -> Rep h -> Rep (heap_of (ce_remove_child h s c)).
+Proof.
+  intros WX Hs HR. destruct (ce_remove_child h s c) as [h'|h' e] eqn:P; [|rewrite (ce_remove_child_err _ _ _ _ _ P); exact HR].
+  simpl. destruct (remove_facts h h' s c WX Hs P) as (a & b & HC & ->).
+  apply (rep_frame h); [apply (remove_nnodes h s c a b HC)| | | | |exact HR]; intro j; apply (remove_heap_other h s c a b HC); reflexivity.
+Qed.
+Lemma each_push_Rep s : forall l h, Rep h -> Rep (heap_of (each (fun h c => ce_push_child h s c) l h)).
+Proof. intros l h HR. apply each_inv; [|exact HR]. intros h0 x _ R0. apply ce_push_child_Rep. exact R0. Qed.
+Lemma each_remove_Rep s : forall l h, WFx h -> s < nnodes h -> Children h s l -> Rep h ->
+  Rep (heap_of (each (fun h c => ce_remove_child h s c) l h)).
+Proof.
+  induction l as [|c t IH]; intros h WX Hs C HR; [exact HR|].
+  assert (P : ce_remove_child h s c = ROk (remove_heap h s c)).
+  { unfold ce_remove_child. rewrite (Children_kids _ _ _ C). simpl. rewrite Nat.eqb_refl. reflexivity. }
+  destruct (remove_WFx_Children h _ s c WX Hs P) as (WX1 & HN & SK & a & b & C0 & CS & CO).
+  pose proof (Children_unique _ _ _ _ C C0) as E.
+  assert (a = [] /\ b = t) as [-> ->].
+  { destruct C as (_ & _ & _ & ND & _). destruct a as [|x a'].
+    - simpl in E. injection E as ->. auto.
+    - simpl in E. injection E as E1 Et. exfalso. inversion ND as [|? ? NI ND']; subst. apply NI. rewrite in_app_iff. right; left; reflexivity. }
+  simpl in CS. simpl each. rewrite P. simpl bind.
+  pose proof (ce_remove_child_Rep h s c WX Hs HR) as R1. rewrite P in R1. simpl in R1.
+  apply IH; [exact WX1|rewrite HN; exact Hs|exact CS|exact R1].
+Qed.
+Lemma push_child_Rep h s c : Rep h -> Rep (heap_of (push_child h s c)).
+Proof. intro HR. unfold push_child. destruct (push_guard h s c); [exact HR|apply ce_push_child_Rep; exact HR]. Qed.
+Lemma remove_child_Rep h s c : WF h -> s < nnodes h -> Rep h -> Rep (heap_of (remove_child h s c)).
+Proof.
+  intros HW Hs HR. unfold remove_child.
+  destruct (kind_of h s); try exact HR; apply ce_remove_child_Rep; auto; apply WF_WFx; exact HW.
+Qed.
+Lemma remove_Rep h s : WF h -> s < nnodes h -> Rep h -> Rep (heap_of (remove h s)).
+Proof.
+  intros HW Hs HR. unfold remove. destruct (n_parent (nd h s)) as [p|] eqn:E; [|exact HR].
+  apply remove_child_Rep; auto.
+  destruct HW as (((C1 & _) & _) & _). destruct (C1 s Hs) as (R & _). rewrite E in R. exact R.
+Qed.
+Lemma remove_children_Rep h s : WF h -> s < nnodes h -> Rep h -> Rep (heap_of (remove_children h s)).
+Proof.
+  intros HW Hs HR. unfold remove_children. destruct (WF_kids h s HW Hs) as [cs C].
+  rewrite (Children_kids _ _ _ C). apply each_remove_Rep; auto. apply WF_WFx; exact HW.
+Qed.
+
 (* push_children *)
 Lemma push_child_size h s c : nnodes (heap_of (push_child h s c)) = nnodes h /\ same n_kind h (heap_of (push_child h s c)).
 Proof.
@@ -156,66 +208,74 @@ Proof.
 Qed.
 
 Lemma push_children_generic h s cs : WF h -> s < nnodes h -> (forall x, In x cs -> x < nnodes h) ->
-  kind_of h s <> KRtc -> WF (heap_of (each (fun h' c => push_child h' s c) cs h)).
+  WF (heap_of (each (fun h' c => push_child h' s c) cs h)).
 Proof.
-  intros HW Hs Hcs K.
-  refine (proj1 (each_inv (fun h0 => WF h0 /\ nnodes h0 = nnodes h /\ kind_of h0 s = kind_of h s) _ cs _ h _)).
-  - intros h0 x Hx (W0 & N0 & K0). destruct (push_child_size h0 s x) as [N1 S1].
-    split; [|split; [congruence|unfold kind_of; rewrite S1; exact K0]].
-    apply push_child_WF; [exact W0|rewrite N0; exact Hs|rewrite N0; apply Hcs; exact Hx|].
-    unfold t_rtc_lone_rp. destruct (kind_eqb (kind_of h0 s) KRtc) eqn:E; [|reflexivity].
-    apply kind_eqb_true in E. congruence.
+  intros HW Hs Hcs.
+  refine (proj1 (each_inv (fun h0 => WF h0 /\ nnodes h0 = nnodes h) _ cs _ h _)).
+  - intros h0 x Hx (W0 & N0). destruct (push_child_size h0 s x) as [N1 S1].
+    split; [|congruence].
+    apply push_child_WF; [exact W0|rewrite N0; exact Hs|rewrite N0; apply Hcs; exact Hx].
   - auto.
 Qed.
 
-Theorem push_children_WF h s cs : WF h -> s < nnodes h -> (forall x, In x cs -> x < nnodes h) ->
-  t_rtc_push_children_appends h s cs = false -> t_push_children_half h s cs = false ->
-  WF (heap_of (push_children h s cs)).
+(* a rejected push leaves its heap alone, so a loop of pushes that raises has pushed a prefix *)
+Lemma each_push_prefix s : forall l h h' e, each (fun h c => ce_push_child h s c) l h = RErr h' e ->
+  exists l1 l2, l = l1 ++ l2 /\ each (fun h c => ce_push_child h s c) l1 h = ROk h'.
 Proof.
-  intros HW Hs Hcs T8 T6. unfold push_children.
-  destruct (WF_kids h s HW Hs) as [cs0 C0].
-  (* the ordered containers: the whole list is pushed, or nothing *)
-  assert (LOOP : forall (V : match kind_of h s with
-                              | KRuby => negb (is_some (n_first (nd h s))) && existsb (kinds_eqb (map (kind_of h) cs)) ruby_patterns
-                              | KRtc => rtc_list_ok (map (kind_of h) cs) | _ => false end = true),
-            (forall h', each (fun h c => ce_push_child h s c) cs h = ROk h' ->
-                        allowed (n_kind (nd h s)) (map (fun c => n_kind (nd h c)) (cs0 ++ cs)) = true) ->
-            WF (heap_of (each (fun h c => ce_push_child h s c) cs h))).
-  { intros V Hall. unfold t_push_children_half in T6. rewrite V in T6. simpl in T6.
-    destruct (each (fun h c => ce_push_child h s c) cs h) as [h'|h' e] eqn:E.
-    - simpl. destruct (each_push_ok s cs h h' cs0 (WF_WFx h HW) Hs Hcs C0 (WF_ContentExcept h s HW) E) as (WX & CS & CE & SK & HN).
-      apply WF_split. split; [exact WX|]. intros p Hp. destruct (Nat.eq_dec p s) as [->|Np].
-      + intros cs' C'. rewrite (Children_unique _ _ _ _ C' CS). rewrite SK, (map_kind_same _ _ _ SK). apply (Hall h'). reflexivity.
-      + apply CE; assumption.
-    - destruct cs as [|c0 rest]; [discriminate|]. simpl in E.
-      destruct (ce_push_child h s c0) as [h1|h1 e1] eqn:P.
-      + simpl in E. rewrite E in T6. discriminate.
-      + simpl in E. injection E as <- _. rewrite (ce_push_child_err _ _ _ _ _ P). exact HW. }
-  destruct (kind_of h s) eqn:K;
-    try (apply push_children_generic; [exact HW|exact Hs|exact Hcs|rewrite K; discriminate]).
+  induction l as [|c t IH]; intros h h' e E; simpl in E; [discriminate|].
+  destruct (ce_push_child h s c) as [h1|h1 e1] eqn:P; simpl in E.
+  - destruct (IH h1 h' e E) as (l1 & l2 & -> & E1). exists (c :: l1), l2. split; [reflexivity|]. simpl. rewrite P. exact E1.
+  - injection E as <- _. rewrite (ce_push_child_err _ _ _ _ _ P). exists [], (c :: t). split; reflexivity.
+Qed.
+
+(* the ordered containers (Ruby, Rtc): the whole list is pushed under an element without children, or
+   whatever was pushed is removed again *)
+Lemma push_all_or_undo_WF h s cs undo : WF h -> s < nnodes h -> (forall x, In x cs -> x < nnodes h) ->
+  n_first (nd h s) = None -> (forall h', nnodes h' = nnodes h -> undo h' = remove_children h' s) ->
+  allowed (n_kind (nd h s)) (map (fun c => n_kind (nd h c)) cs) = true ->
+  WF (heap_of (push_all_or_undo h s cs undo)) /\ (Rep h -> Rep (heap_of (push_all_or_undo h s cs undo))).
+Proof.
+  intros HW Hs Hcs F U A. unfold push_all_or_undo.
+  pose proof (each_push_Rep s cs h) as RP.
+  destruct (WF_kids h s HW Hs) as [cs0 C0]. apply (Children_nil_first _ _ _ C0) in F. subst cs0.
+  destruct (each (fun h' c => ce_push_child h' s c) cs h) as [h'|h' e] eqn:E.
+  - simpl. simpl in RP. split; [|exact RP].
+    destruct (each_push_ok s cs h h' [] (WF_WFx h HW) Hs Hcs C0 (WF_ContentExcept h s HW) E) as (WX & CS & CE & SK & HN).
+    apply WF_split. split; [exact WX|]. intros p Hp. destruct (Nat.eq_dec p s) as [->|Np].
+    + intros cs' C'. rewrite (Children_unique _ _ _ _ C' CS). rewrite SK, (map_kind_same _ _ _ SK). exact A.
+    + apply CE; assumption.
+  - destruct (each_push_prefix s cs h h' e E) as (l1 & l2 & -> & E1).
+    assert (Hl1 : forall x, In x l1 -> x < nnodes h) by (intros x Hx; apply Hcs; apply in_app_iff; left; exact Hx).
+    destruct (each_push_ok s l1 h h' [] (WF_WFx h HW) Hs Hl1 C0 (WF_ContentExcept h s HW) E1) as (WX & CS & CE & SK & HN).
+    simpl in CS. assert (Hs' : s < nnodes h') by (rewrite HN; exact Hs).
+    rewrite (U h' HN). unfold remove_children. rewrite (Children_kids _ _ _ CS).
+    destruct (each_remove_ok s l1 h' WX Hs' CS CE) as (h2 & E2 & WX2 & CS2 & CE2 & SK2 & HN2).
+    pose proof (each_remove_Rep s l1 h' WX Hs' CS) as RR.
+    rewrite E2 in *. simpl in RP, RR. split; [|intro HR; exact (RR (RP HR))].
+    apply WF_split. split; [exact WX2|]. intros p Hp. destruct (Nat.eq_dec p s) as [->|Np].
+    + intros cs' C'. rewrite (Children_unique _ _ _ _ C' CS2). apply allowed_nil.
+    + apply CE2; assumption.
+Qed.
+
+Theorem push_children_WF h s cs : WF h -> s < nnodes h -> (forall x, In x cs -> x < nnodes h) ->
+  WF (heap_of (push_children h s cs)) /\ (Rep h -> Rep (heap_of (push_children h s cs))).
+Proof.
+  intros HW Hs Hcs. unfold push_children.
+  assert (GEN : WF (heap_of (each (fun h' c => push_child h' s c) cs h)) /\
+                (Rep h -> Rep (heap_of (each (fun h' c => push_child h' s c) cs h)))).
+  { split; [apply push_children_generic; [exact HW|exact Hs|exact Hcs]|].
+    intro HR. apply each_inv; [|exact HR]. intros h0 x _ R0. apply push_child_Rep. exact R0. }
+  destruct (kind_of h s) eqn:K; try exact GEN.
   - (* Ruby *)
-    destruct (is_some (n_first (nd h s))) eqn:F; [exact HW|].
-    destruct (existsb (kinds_eqb (map (kind_of h) cs)) ruby_patterns) eqn:V; simpl; [|exact HW].
-    apply LOOP; [reflexivity|]. intros h' _.
-    apply is_some_false in F. apply (Children_nil_first _ _ _ C0) in F. subst cs0. simpl.
+    destruct (is_some (n_first (nd h s))) eqn:F; [split; [exact HW|auto]|].
+    destruct (existsb (kinds_eqb (map (kind_of h) cs)) ruby_patterns) eqn:V; simpl; [|split; [exact HW|auto]].
+    apply is_some_false in F. apply push_all_or_undo_WF; [exact HW|exact Hs|exact Hcs|exact F|reflexivity|].
     unfold kind_of in K. rewrite K. simpl. apply ruby_pattern_form. exact V.
   - (* Rtc *)
-    destruct (rtc_list_ok (map (kind_of h) cs)) eqn:V; simpl; [|exact HW].
-    apply LOOP; [reflexivity|]. intros h' _.
-    unfold kind_of in K. rewrite K. simpl. rewrite map_app.
-    pose proof (WF_content_at h HW s Hs cs0 C0) as A. rewrite K in A. simpl in A.
-    unfold t_rtc_push_children_appends in T8. unfold kind_of in T8 at 1. rewrite K in T8. simpl in T8.
-    destruct C0 as (F0 & _). rewrite F0 in T8.
-    destruct cs0 as [|f t0]; [simpl; apply rtc_list_ok_form; exact V|].
-    destruct cs as [|c1 rest]; [simpl; rewrite app_nil_r; exact A|].
-    simpl in T8. apply orb_false_iff in T8. destruct T8 as [T8a T8b].
-    assert (NoRp : existsb (fun k => kind_eqb k KRp) (map (kind_of h) (c1 :: rest)) = false).
-    { assert (EM : forall l, existsb (fun k => kind_eqb k KRp) (map (kind_of h) l) = existsb (fun c => kind_eqb (kind_of h c) KRp) l).
-      { induction l as [|x l IHl]; [reflexivity|]. simpl. rewrite IHl. reflexivity. }
-      rewrite EM. simpl. exact T8b. }
-    pose proof (rtc_list_ok_no_rp _ V NoRp) as AR.
-    destruct (rtc_form_other _ _ A) as [Ef|Ef].
-    + simpl in A. rewrite Ef in A. apply rtc_form_hd_rt in A. apply rtc_form_all_rt.
-      rewrite all_rt_app. simpl map at 1. rewrite Ef. rewrite A. exact AR.
-    + unfold kind_of in T8a. rewrite Ef in T8a. discriminate.
+    destruct (rtc_list_ok (map (kind_of h) cs)) eqn:V; simpl; [|split; [exact HW|auto]].
+    destruct (is_some (n_first (nd h s))) eqn:F; [split; [exact HW|auto]|]. apply is_some_false in F.
+    rewrite (kids_no_first' _ _ F).
+    apply push_all_or_undo_WF; [exact HW|exact Hs|exact Hcs|exact F| |].
+    + intros h' _. unfold remove_children. destruct (kids h' s); reflexivity.
+    + unfold kind_of in K. rewrite K. simpl. apply rtc_list_ok_form. exact V.
 Qed.
